@@ -93,7 +93,7 @@ fn field_variants() -> Vec<(&'static str, Vec<Box<dyn Fn(&mut Snap)>>)> {
     vec![
         ("icao", vec![b(|s| { s.icao = 1; s.key = 1; }), b(|s| { s.icao = 0xFFFFFF; s.key = 0xFFFFFF; }), b(|s| { s.icao = 0x00ABCD; s.key = 0x00ABCD; })]),
         ("reg", vec![b(|s| s.reg = "??".into()), b(|s| s.reg = "US".into()), b(|s| s.reg = "".into())]),
-        ("squawk", vec![b(|s| s.squawk = None), b(|s| s.squawk = Some(0)), b(|s| s.squawk = Some(7777)), b(|s| s.squawk = Some(21))]),
+        ("squawk", vec![b(|s| s.squawk = None), b(|s| s.squawk = Some(0)), b(|s| s.squawk = Some(7777)), b(|s| s.squawk = Some(21)), b(|s| s.squawk = Some(7500)), b(|s| s.squawk = Some(7600)), b(|s| s.squawk = Some(7700)), b(|s| s.squawk = Some(1200)), b(|s| s.squawk = Some(7000))]),
         ("threat", vec![b(|s| s.threat = None), b(|s| s.threat = Some('\u{2072}'))]),
         ("category", vec![b(|s| s.category = (0, 0)), b(|s| s.category = (4, 1)), b(|s| s.category = (4, 5)), b(|s| s.category = (4, 7)), b(|s| s.category = (4, 6)), b(|s| s.category = (2, 3)), b(|s| s.category = (4, 0))]),
         ("ais", vec![b(|s| s.ais = None), b(|s| s.ais = Some("A".into())), b(|s| s.ais = Some("ABCD1234".into())), b(|s| s.ais = Some("".into()))]),
@@ -228,7 +228,14 @@ fn cli_histories() -> Vec<Vec<String>> {
 }
 
 fn check_cli(ctx: &mut Ctx, letters: &str, hist: &[String]) {
-    let opts = ["-i", letters, "--update=-1", "-o", ""];
+    for (si, sp) in spellings(letters).iter().enumerate() {
+        check_cli_spelled(ctx, letters, hist, si, sp);
+    }
+}
+
+fn check_cli_spelled(ctx: &mut Ctx, letters: &str, hist: &[String], si: usize, spelling: &[String]) {
+    let mut opts: Vec<&str> = spelling.iter().map(|s| s.as_str()).collect();
+    opts.extend(["--update=-1", "-o", ""]);
     let content = join_lines(&hist.iter().map(|s| s.as_bytes().to_vec()).collect::<Vec<_>>());
     let c = match cli::run_cli(true, &opts, &content, "c14") {
         Ok(c) => c,
@@ -245,7 +252,7 @@ fn check_cli(ctx: &mut Ctx, letters: &str, hist: &[String]) {
     let rows = snapshot(&t);
     ctx.eval();
     ctx.out.traces_validated += 1;
-    let key = format!("-i {letters:?} / history of {} frames", hist.len());
+    let key = format!("-i {letters:?} (spelling {si}: {}) / history of {} frames", spelling.join(" "), hist.len());
     let case = || json!({"cli": true, "letters": letters, "history": hist});
     let blocks = cli::blocks(&c.stdout);
     let last: Vec<&str> = blocks.last().map(|b| b.lines().collect()).unwrap_or_default();
